@@ -449,7 +449,7 @@ def oracle(case):
 def gen_broken():
     from hypothesis import strategies as st
 
-    return st.fixed_dictionaries({"spec": gg.spec_strategy(min_nodes=3, max_nodes=8), "how": st.sampled_from(["dup_node", "dup_var", "dup_group", "reserved", "cycle", "cycle_self"]),
+    return st.fixed_dictionaries({"spec": gg.spec_strategy(min_nodes=3, max_nodes=8), "how": st.sampled_from(["dup_node", "dup_var", "dup_var_renamed", "dup_group", "reserved", "cycle", "cycle_self"]),
                                   "a": st.integers(0, 30), "b": st.integers(0, 30)})
 
 
@@ -468,6 +468,16 @@ def oracle_broken(case):
     elif how == "dup_var":
         tgt = vars_[case["a"] % len(vars_)].name if vars_ else "dupvar"
         extra = [lsl.Var(1.0, name=tgt)] + ([] if vars_ else [lsl.Var(2.0, name=tgt)])
+    elif how == "dup_var_renamed":
+        # two different variables end up with the same name although all their NODE names differ: a variable whose value node has a
+        # user-chosen name is renamed (the rename then leaves its node names alone)
+        tgt = vars_[case["a"] % len(vars_)].name if vars_ else "dupvar"
+        v = lsl.Var(lsl.Calc(lambda x: x, 1.0, _name="renamed_inner_calc"), name="renamed_tmp")
+        v.name = tgt
+        extra = [v] + ([] if vars_ else [lsl.Var(2.0, name=tgt)])
+        names_all = [n.name for o in extra for n in ([o.value_node, o.var_value_node] if isinstance(o, lsl.Var) else [o])]
+        if len(set(names_all)) != len(names_all):
+            raise RuntimeError("harness: dup_var_renamed scenario has clashing node names")
     elif how == "dup_group":
         g1 = lsl.Group("samegroup", m=lsl.Value(1.0, _name="g_a"))
         g2 = lsl.Group("samegroup", m=lsl.Value(2.0, _name="g_b"))
@@ -494,8 +504,60 @@ def oracle_broken(case):
     return {"nt": True, "cls": [how]}
 
 
+# ------------------------------------------------------------------------------ automatic names over several naming passes
+def gen_names():
+    from hypothesis import strategies as st
+
+    return st.fixed_dictionaries({"k": st.integers(0, 14), "kv": st.integers(0, 12), "passes": st.lists(st.tuples(st.sampled_from(["pop", "copy", "build_copy"]), st.integers(0, 3), st.integers(0, 2)),
+                                                                                                     min_size=1, max_size=4)})
+
+
+def oracle_names(case):
+    """k unnamed literal nodes and kv unnamed variables get automatic names; after each pop / copy (or copy-build) new unnamed nodes / variables are
+    added and the graph is built again: every valid graph must build, with unique non-empty names and every object contained exactly once"""
+    det = lambda: f"{case}"  # noqa: E731
+    root = lsl.Calc(lambda *a: sum(jnp.asarray(x, dtype=jnp.float32) for x in a) if a else jnp.float32(0.0), *[float(i) for i in range(case["k"])], _name="lits")
+    vs = [lsl.Var(np.float32(i)) for i in range(case["kv"])]
+    top = lsl.Calc(lambda r, *v: jnp.asarray(r) + sum(jnp.asarray(x) for x in v) if v else jnp.asarray(r), root, *vs, _name="top")
+    n_nodes, n_vars = 3 + 2 + case["k"] + 2 * case["kv"], case["kv"]
+    gb = lsl.GraphBuilder().add(top)
+    model = gb.build_model()
+    objs = [top]
+    for step, (route, new_nodes, new_vars) in enumerate(case["passes"]):
+        tag = f"pass {step} ({route}, +{new_nodes} nodes, +{new_vars} vars): "
+        if route == "pop":
+            nodes, vars_ = model.pop_nodes_and_vars()
+        elif route == "copy":
+            nodes, vars_ = model.copy_nodes_and_vars()
+        else:
+            nodes, vars_ = dict(model.nodes), dict(model.vars)
+            nodes = {k: v for k, v in nodes.items() if not k.startswith("_model")}
+        base = nodes["top"]
+        adds = [lsl.Calc(lambda x: jnp.asarray(x) * 1.0, base) for _ in range(new_nodes)] + [lsl.Var(lsl.Calc(lambda x: jnp.asarray(x) + 1.0, base)) for _ in range(new_vars)]
+        n_nodes += new_nodes + 2 * new_vars
+        n_vars += new_vars
+        gb = lsl.GraphBuilder().add(*nodes.values(), *vars_.values(), *adds)
+        try:
+            if route == "build_copy":
+                model.pop_nodes_and_vars()
+                new = gb.build_model(copy=True)      # the next pass continues with this independent copy
+            else:
+                new = gb.build_model()
+        except Exception as e:  # noqa: BLE001
+            raise Violation("valid-graph-rejected-after-renaming-pass", f"{tag}{type(e).__name__}: {e}; {det()}")
+        names = [n.name for n in new.nodes.values()]
+        require(all(names) and len(set(names)) == len(names), "auto-names-not-unique-nonempty", lambda: f"{tag}{sorted(names)}; {det()}")
+        vn = [v.name for v in new.vars.values()]
+        require(all(vn) and len(set(vn)) == len(vn), "auto-var-names-not-unique-nonempty", lambda: f"{tag}{sorted(vn)}; {det()}")
+        require(len(names) == n_nodes and len(vn) == n_vars, "node-count-not-closure-of-inputs", lambda: f"{tag}{len(names)} nodes / {len(vn)} vars, expected {n_nodes} / {n_vars}; {det()}")
+        model = new
+    return {"nt": case["k"] + case["kv"] >= 11, "cls": [f"unnamed>={10 if case['k'] + case['kv'] >= 11 else 0}", *sorted({r for r, _, _ in case["passes"]})]}
+
+
 SUBS = [
     Sub("histories", oracle, gen=gen, n={"quick": 1600, "thorough": 30000}, shrink_calls=120,
         what="structure invariants, frozen entry points, second-build attempts, round-trips, assignments"),
     Sub("broken", oracle_broken, gen=gen_broken, n={"quick": 120, "thorough": 2000}, what="duplicate names / reserved names / cycles are rejected"),
+    Sub("auto_names", oracle_names, gen=gen_names, n={"quick": 200, "thorough": 4000}, shrink_calls=40,
+        what="automatic names stay unique over several pop / copy / copy-build passes that add new unnamed nodes and variables"),
 ]
